@@ -508,6 +508,52 @@ def case_wide(ctx, r, B):
                    nrows=r.choice([1, 2, 3]), exact=exact_in_double, degenerate='wide integer values')
 
 
+# ------------------------------------------------------------------------------------------ held (stale) views
+
+def case_stale_view(ctx, r, B):
+    """a `.spin` / `.binary` view object taken BEFORE the vartypes were made to coincide (base changed in place, or the view
+    re-typed in place), or before the base went there and back: energies through the OLD view object, every encoding,
+    against the coefficients that same view reports"""
+    R = Recipe()
+    dtype = r.choice(['np.float64', 'np.float32', 'object'])
+    labels, vt = gen_bqm(r, R, dtype=dtype, nmax=4)
+    other = 'BINARY' if vt == 'SPIN' else 'SPIN'
+    R.do(f'v = m.{other.lower()}   # view object held across the change below')
+    way = r.choice(['base changed in place', 'base changed in place', 'view re-typed in place', 'base there and back'])
+    if way == 'base changed in place':
+        R.do(f'm.change_vartype({other!r}, inplace=True)')
+    elif way == 'view re-typed in place':
+        R.do(f'v.change_vartype({vt!r}, inplace=True)')
+    else:
+        R.do(f'm.change_vartype({other!r}, inplace=True)')
+        R.do(f'm.change_vartype({vt!r}, inplace=True)')
+    m, v = R['m'], R['v']
+    vvt, dvt = v.vartype.name, m.vartype.name
+    is_py = dtype == 'object'
+    site = ('BQM[object]' if is_py else 'BQM[float32]' if dtype == 'np.float32' else 'BQM') + '(held view).energies'
+    dom = lambda l: domain(vvt)  # noqa
+
+    def mirror(d_rows, d_labels):
+        l, a, o = qmb_tokens(m, r=r)
+        ml = labs(m.variables)
+        # the model's VartypeView.energies: pass-through when the vartypes coincide, sample map otherwise
+        return f'viewenergies {vvt} {dvt} {int(is_py)} {l} {a} {o} {ml} {rows_tok(d_rows)} {labs(d_labels)}'
+    check_energies(ctx, r, B, R, 'v', site, labels, labels, dom, mirror, vartype_name=vvt,
+                   degenerate=f'held view, {way}' + ('' if labels else ', no variables'), all_dtypes=r.random() < .3)
+    # single-sample entry point as well
+    if labels:
+        row = {l: r.choice(domain(vvt)) for l in labels}
+        try:
+            e = F(v.energy(row))
+            ok = e == poly_value(v, row)
+        except Exception as ex:  # noqa
+            e, ok = repr(ex), False
+        ctx.case((site, 'energy', tuple(R.lines[4:]), repr(row)), nontrivial=True)
+        if not ok:
+            ctx.fail('property', site.replace('energies', 'energy'), f'held view, {way}', f'energy({row}) = {e}, the view\'s own coefficients give {poly_value(v, row)}',
+                     repro=R.script(f'row = {row!r}\nassert F(v.energy(row)) == poly_value(v, row), (v.energy(row), poly_value(v, row))\n'))
+
+
 # ------------------------------------------------------------------------------------------ DQM
 
 DQM_ORACLE = ''
@@ -725,7 +771,7 @@ def run(ctx):
                 'permuted columns, SampleSet, plain arrays); a case = one energies call or one as_samples call; non-trivial = the '
                 'model has variables and the call evaluates at least one row; distinct by (construction script, target, encoding)')
     for i in range(n):
-        kind = r.choice(['bqm', 'bqm', 'qm', 'qm', 'cqm', 'cqm', 'cqm', 'dqm', 'poly', 'as', 'as', 'as', 'wide', 'wide'])
+        kind = r.choice(['bqm', 'bqm', 'qm', 'qm', 'cqm', 'cqm', 'cqm', 'dqm', 'poly', 'as', 'as', 'as', 'wide', 'wide', 'stale', 'stale'])
         ctx.tick('model:' + kind)
         if kind == 'bqm':
             case_bqm(ctx, r, B)
@@ -739,6 +785,8 @@ def run(ctx):
             case_poly(ctx, r, B)
         elif kind == 'wide':
             case_wide(ctx, r, B)
+        elif kind == 'stale':
+            case_stale_view(ctx, r, B)
         else:
             check_as_samples(ctx, r, B)
         if len([f for f in ctx.failures if f['kind'] == 'property']) >= 12:
